@@ -313,6 +313,43 @@ def gen_problem_validators() -> str:
     return "\n\n".join(out)
 
 
+# ----------------------------------------------------------------------------- verbosity_to_loguru_level
+
+def gen_loguru() -> str:
+    f = find_func(ast.parse((REPO / "src/mdpax/utils/logging.py").read_text()), None, "verbosity_to_loguru_level")
+    body = [st for st in f.body if not is_doc_or_log(st)]
+    if len(body) != 3:
+        raise Untranslatable("verbosity_to_loguru_level: expected two guards and a return")
+    g1, g2, ret = body
+    if not (isinstance(g1, ast.If) and ast.unparse(g1.test) == "not isinstance(verbose, int)" and isinstance(g1.body[0], ast.Raise)
+            and ast.unparse(g1.body[0].exc).startswith("TypeError(")):
+        raise Untranslatable("verbosity_to_loguru_level: first guard is not the integer test raising TypeError")
+    if not (isinstance(g2, ast.If) and isinstance(g2.body[0], ast.Raise) and ast.unparse(g2.body[0].exc).startswith("ValueError(")):
+        raise Untranslatable("verbosity_to_loguru_level: second guard does not raise ValueError")
+    saved = dict(CFG_FIELDS)
+    try:
+        CFG_FIELDS.clear()
+        tr = Tr(not_none=set())
+        cond = tr.cond(g2.test)
+    finally:
+        CFG_FIELDS.update(saved)
+    if not (isinstance(ret, ast.Return) and isinstance(ret.value, ast.Subscript) and isinstance(ret.value.value, ast.Dict)
+            and ast.unparse(ret.value.slice) == "verbose"):
+        raise Untranslatable("verbosity_to_loguru_level: return is not a literal table indexed by `verbose`")
+    d = ret.value.value
+    chain = "[]"
+    for k, v in reversed(list(zip(d.keys, d.values))):
+        if not (isinstance(k, ast.Constant) and isinstance(k.value, int) and isinstance(v, ast.Constant) and isinstance(v.value, str) and v.value.isascii()):
+            raise Untranslatable("verbosity_to_loguru_level: table entry is not int -> str")
+        chars = "[" + ",".join("'" + c + "'" for c in v.value) + "]"
+        chain = f"if verbose = ({k.value} : Int) then {chars} else {chain}"
+    return ("/-- `verbosity_to_loguru_level` (`isInt` = `isinstance(verbose, int)`; a key missing from the table would be a KeyError: rendered as []) -/\n"
+            "def loguruLevel (isInt : Bool) (verbose : Int) : Except CfgErr (List Char) :=\n"
+            "  if !isInt then .error .typeError\n"
+            f"  else if {cond} then .error .valueError\n"
+            f"  else .ok ({chain})")
+
+
 HEADER = """/- GENERATED by harness/translate.py from /repo's Python source on every run — do not edit.
    Source: src/mdpax/utils/batch_processing.py (BatchProcessor.__init__), src/mdpax/utils/logging.py (get_convergence_format),
    src/mdpax/solvers/*.py, src/mdpax/problems/**.py (the five solver and four problem configuration validators). -/
@@ -325,7 +362,7 @@ open MdpaxV
 
 def generate() -> tuple[bool, str]:
     """(re)write the generated module; returns (changed, text).  Raises Untranslatable."""
-    text = HEADER + gen_batch_init() + "\n\n" + gen_decimal_places() + "\n\n" + gen_validators() + "\n\n" + gen_problem_validators() + "\n\nend MdpaxV.Gen\n"
+    text = HEADER + gen_batch_init() + "\n\n" + gen_decimal_places() + "\n\n" + gen_validators() + "\n\n" + gen_problem_validators() + "\n\n" + gen_loguru() + "\n\nend MdpaxV.Gen\n"
     old = OUT.read_text() if OUT.exists() else None
     if old != text:
         OUT.parent.mkdir(parents=True, exist_ok=True)
